@@ -218,6 +218,8 @@ class ParseAPI(object):
         if data is None or self._address_prefix is None or not data.startswith(self._address_prefix):
             return None
         size = len(self._address_prefix)
+        if len(data) != size + 20:
+            return None
         script = self._network.contract.for_p2pkh(data[size:])
         script_info = self._network.contract.info_for_script(script)
         return Contract(script_info, self._network)
@@ -233,6 +235,8 @@ class ParseAPI(object):
         ):
             return None
         size = len(self._pay_to_script_prefix)  # type: ignore[arg-type]
+        if len(data) != size + 20:  # type: ignore[arg-type]
+            return None
         script = self._network.contract.for_p2sh(data[size:])  # type: ignore[index]
         script_info = self._network.contract.info_for_script(script)
         return Contract(script_info, self._network)
